@@ -121,6 +121,7 @@ type Obs struct {
 	StoreCalls      int    // SessionStorage.Store calls up to and including the probe request
 	ChatterFirst    string // after an abandoned exchange: the first of the five further server messages
 	AfterChatter    string // ... and store calls / client state / session file after them
+	StoreFail       string // "", "armed", or what the client did after the exchange whose session could not be stored
 	Redial          string // "", or what the client did after the server closed the connection of an abandoned exchange
 	PlainChatterOK  string // after a successful exchange: effect of the five unencrypted messages
 	EncNotification string // ... and of the legitimate encrypted new_session_created
@@ -184,6 +185,8 @@ type countingStore struct {
 	mu     sync.Mutex
 	stores int
 	last   string
+	// failFirst: the first Store fails (full disk, missing directory): a key exchange that passed every check ends with an error
+	failFirst bool
 }
 
 func (c *countingStore) Load() (*session.Session, error) { return c.inner.Load() }
@@ -191,7 +194,11 @@ func (c *countingStore) Store(s *session.Session) error {
 	c.mu.Lock()
 	c.stores++
 	c.last = fmt.Sprintf("key %d bytes, hash %d bytes, salt %x, host %q", len(s.Key), len(s.Hash), uint64(s.Salt), s.Hostname)
+	fail := c.failFirst && c.stores == 1
 	c.mu.Unlock()
+	if fail {
+		return fmt.Errorf("verif: the session storage fails (injected)")
+	}
 	return c.inner.Store(s)
 }
 func (c *countingStore) count() (int, string) {
@@ -274,6 +281,12 @@ func runCase(c *Case) Obs {
 		return o
 	}
 	keepAlive = append(keepAlive, srv, m)
+	// one conformant exchange in five cannot store its session: CreateConnection returns the error, key and salt are dropped,
+	// and whatever unencrypted message comes next on the open connection must be refused like after any abandoned exchange
+	if fault(c) == nil && c.Expect == "success" && (len(c.ID)+int(c.ID[len(c.ID)-1]))%5 == 2 {
+		store.failFirst = true
+		o.StoreFail = "armed"
+	}
 
 	script := &scriptReader{data: bytes.Join([][]byte{unhex(c.Nonce), unhex(c.NewNonce), unhex(c.B)}, nil), real: crand.Reader}
 	old := crand.Reader
@@ -396,6 +409,14 @@ func runCase(c *Case) Obs {
 		o.AfterChatter = fmt.Sprintf("stores=%d encrypted=%v key=%d salt=%x file=%s", n, enc, len(key), uint64(salt), tail(sessionFile(sess, srv.Addr()), 12))
 		if n > 0 {
 			o.AfterChatter += " last-store: " + last
+		}
+		if o.StoreFail == "armed" {
+			if n == 1 && !enc && len(key) == 0 && salt == 0 && strings.HasSuffix(o.AfterChatter[:strings.Index(o.AfterChatter, " last-store")], "file=-") {
+				o.StoreFail = "clean"
+			} else {
+				o.StoreFail = "not clean: " + o.AfterChatter
+			}
+			o.AfterChatter = ""
 		}
 	}
 	// one ordinary request on the same client: after success it must be sent encrypted, be readable by the server
@@ -919,6 +940,16 @@ func direct(c *Case, o *Obs) (string, string) {
 	if o.RandOverrun != 0 {
 		return "harness-error", fmt.Sprintf("the client drew %d more random bytes than scripted", o.RandOverrun)
 	}
+	if o.StoreFail != "" {
+		switch {
+		case o.Class != "err":
+			return bad("the session could not be stored (first Store fails) but CreateConnection did not return an error: %s", o.Class)
+		case o.StoreFail != "clean":
+			return bad("after a key exchange whose session could not be stored (CreateConnection returned the error) the server sent five "+
+				"unencrypted messages (new_session_created, bad_server_salt, rpc_result, container, garbage) and the client did not stay clean: %s", o.StoreFail)
+		}
+		return "pass-direct-only", ""
+	}
 	switch c.Expect {
 	case "success":
 		if o.Class != "ok" {
@@ -1067,7 +1098,7 @@ func writeOutputs(cs []Case, obs []Obs, outdir string) {
 			dash(o.SrvKey), dash(o.SrvKeyID), dash(o.SrvSalt), dash(o.SrvHash1),
 			strconv.Itoa(o.EncSeen), strconv.FormatBool(o.EncOpened), dash(o.EncPacket), fj, dash(tail(o.ErrText, 200)), dash(o.Rejected),
 			dash(o.PostReq), strconv.FormatBool(o.AfterEncrypted), strconv.Itoa(o.PostPlain), strconv.FormatBool(o.HangRetried),
-			strconv.Itoa(o.StoreCalls), dash(o.AfterChatter), dash(o.PlainChatterOK), dash(o.EncNotification), strconv.Itoa(o.LateStep), dash(o.Redial))
+			strconv.Itoa(o.StoreCalls), dash(o.AfterChatter), dash(o.PlainChatterOK), dash(o.EncNotification), strconv.Itoa(o.LateStep), dash(o.Redial), dash(o.StoreFail))
 
 		// model input block
 		k := testKeys[c.Key%len(testKeys)]
